@@ -8,7 +8,7 @@ from pyvc.run import feed_report, verify_all
 
 GEN_ASSUMPTIONS = [
     "A1 floats are mathematical reals (+ tagged infinities); NaN-producing operations are definedness obligations",
-    "A2 python int is Z; A3 int()/ceil/floordiv semantics; A4 evaluation order / effects as modelled; A5 NumPy view/copy classification",
+    "A2 python int is Z and NumPy integer ARITHMETIC is taken in Z as well (int8..int64 wrap-around of +,-,* is not modelled); only casts to a sized integer type (astype(np.int8..int64)) carry a no-wrap obligation; A3 int()/ceil/floordiv semantics; A4 evaluation order / effects as modelled; A5 NumPy view/copy classification",
     "A6 transcendental functions uninterpreted except the axioms named in the contract",
     "A7 the VC generator (/verif/pyvc), its library models (pyvc/models.py) and the sidecar contracts are trusted as written",
 ]
